@@ -27,7 +27,7 @@ def one(d):
                            capture_output=True, text=True)
         if r.returncode != 0:
             return d, {"applies": False, "detected": False, "error": r.stderr[-300:]}
-        r = subprocess.run([os.path.join(VERIF, "check"), prop, "--repo", wt], capture_output=True, text=True)
+        r = subprocess.run([os.path.join(VERIF, "check"), prop, "--repo", wt], capture_output=True, text=True, timeout=2400)
         keys = re.findall(r"^  key:  (.*)$", r.stdout, re.M)
         rules = re.findall(r"^  rule: (.*)$", r.stdout, re.M)
         res = {"applies": True, "check": "./check %s" % prop, "exit": r.returncode, "detected": r.returncode == 1,
